@@ -581,6 +581,10 @@ def regenerate(srcdir, gendir):
         out2.append(f"-- primitives: NOT TRANSLATED ({e!r})\n")
     out2.append("\nend ShapeVerif.Gen\n")
     ch2 = write_if_changed(os.path.join(gendir, "Tables.lean"), "".join(out2))
+    from harness import translate_arith
+    src3, msgs3 = translate_arith.regenerate(srcdir)
+    msgs += msgs3
+    ch3 = write_if_changed(os.path.join(gendir, "Arith.lean"), src3)
     if msgs:
         return False, "; ".join(msgs)
-    return True, f"translated 19 units from shape.py, plot.py, polygon.py, jordancurve.py, curve.py (changed: {ch1 or ch2})"
+    return True, f"translated 19 table units and {src3.count(chr(10) + 'def ')} arithmetic units from shape.py, plot.py, polygon.py, jordancurve.py, curve.py (changed: {ch1 or ch2 or ch3})"
